@@ -326,6 +326,17 @@ def count_kinds(prog):
 
 # history items: ["ev", k, v|None] | ["started", i] | ["finished", i] | ["hit", i, v]
 #   i indexes the running actions; "hit" picks the i-th event name some flow currently waits for (co-simulation)
+def history_item():
+    v = st.sampled_from([None, None, 0, 1])
+    return st.one_of(
+        st.tuples(st.just("ev"), st.integers(0, EVENTS - 1), v),
+        st.tuples(st.just("hit"), st.integers(0, 5), v),
+        st.tuples(st.just("hit"), st.integers(0, 5), v),
+        st.tuples(st.just("finished"), st.integers(0, 3)),
+        st.tuples(st.just("started"), st.integers(0, 3)),
+    ).map(list)
+
+
 def histories(max_len=25):
     v = st.sampled_from([None, None, 0, 1])
     item = st.one_of(
